@@ -11,6 +11,21 @@ from types import SimpleNamespace as NS
 
 import c14_scte35 as S
 
+def run_driver(lines, timeout: int = 900):
+    """common.run_driver, tolerating a concurrent `lake build` of another check that is
+    relinking the shared driver binary (it disappears for a few seconds)"""
+    import time
+    import common
+    last = None
+    for _ in range(90):
+        try:
+            return common.run_driver(lines, timeout=timeout)
+        except (FileNotFoundError, PermissionError, OSError) as e:
+            last = e
+            time.sleep(2)
+    raise last
+
+
 PING_SCHEME = "urn:dash-live:pingpong:2022"
 SCTE_SCHEME = "urn:scte:scte35:2014:xml+bin"
 TIMESCALES = [1, 10, 25, 90, 100, 240, 1000, 12800, 44100, 48000, 90000, 10 ** 6, 10 ** 7]
@@ -155,6 +170,41 @@ def make_event(event: str, sched: dict):
     return Scte35Events(**kw)
 
 
+class NonTermination(BaseException):
+    """the real code did not return within the time limit (BaseException: must not be swallowed)"""
+
+
+class time_limit:
+    """SIGALRM based guard around calls into the real code (main thread only): a regression
+    that brings back the endless loop of D13b must become a failure, not a hung check"""
+
+    def __init__(self, seconds: float):
+        self.seconds = seconds
+
+    def __enter__(self):
+        import signal
+
+        def _raise(*_a):
+            raise NonTermination(f"no result after {self.seconds} s")
+        try:
+            self.old = signal.signal(signal.SIGALRM, _raise)
+            signal.setitimer(signal.ITIMER_REAL, self.seconds)
+            self.armed = True
+        except ValueError:      # not the main thread
+            self.armed = False
+        return self
+
+    def __exit__(self, *a):
+        import signal
+        if self.armed:
+            signal.setitimer(signal.ITIMER_REAL, 0)
+            signal.signal(signal.SIGALRM, self.old)
+        return False
+
+
+_HUNG: list = []
+
+
 def real_boxes(case) -> list:
     """per segment: list of the real EventMessageBox objects, or the exception class name"""
     ev = make_event(case["event"], case["sched"])
@@ -163,10 +213,15 @@ def real_boxes(case) -> list:
         moof = NS(traf=NS(tfdt=NS(base_media_decode_time=tfdt)))
         rep = NS(timescale=case["rep_timescale"], segments=[None, NS(duration=dur)])
         try:
-            out.append(ev.create_emsg_boxes(segment_num=1, mod_segment=1, moof=moof,
-                                            representation=rep, adaptation_set=None))
+            with time_limit(0.5 if _HUNG else 10):
+                out.append(ev.create_emsg_boxes(segment_num=1, mod_segment=1, moof=moof,
+                                                representation=rep, adaptation_set=None))
         except (ValueError, AssertionError, ZeroDivisionError) as e:
             out.append(type(e).__name__)
+        except NonTermination:
+            _HUNG.append(1)      # later cases get a short limit: one slow failure is enough
+            out.append("NonTermination")
+            break
     return out
 
 
